@@ -71,6 +71,14 @@ def describe_case(case):
         d = {"text": gen.unhx(f[0])}
     elif k == "TREE":
         d = {"sexpr": f[0], "text": gen.unhx(f[1])}
+    elif k == "SLICE":
+        d = {"k": f[0], "network": gen.unhx(f[1][2:]), "formulae": lst(f[2])}
+    elif k == "ARCH":
+        d = {"k": f[0], "network": gen.unhx(f[1][2:]), "sets": f[2], "formulae": lst(f[3]), "usage": lst(f[4])}
+    elif k == "CLI":
+        d = {"format": f[0], "model": gen.unhx(f[1]), "formula_file": gen.unhx(f[2]), "print_option": f[3], "context": f[4]}
+    elif k == "CONV":
+        d = {"network": gen.unhx(f[0])}
     else:
         d = {"fields": f}
     d.update({"kind": k, "tag": case.get("tag")})
